@@ -300,6 +300,22 @@ Definition header_alias (name : str) (e : dexpr) (d : edef) : result edef :=
 Definition header_entry (h : vhport) (d : edef) : result edef :=
   match h with HPort dir rg name => header_port dir rg name d | HAlias name e => header_alias name e d end.
 
+(* parse_module_header_ports: a direction, and the range given with it or after it, stays in force for the names
+   that follow until the next direction keyword (the [declaration] handed from port to port) *)
+Fixpoint inherit_header (decl : option (vdir * option (Z * Z))) (l : list vhport) : list vhport :=
+  match l with
+  | [] => []
+  | HPort (Some dr) rg n :: r => HPort (Some dr) rg n :: inherit_header (Some (dr, rg)) r
+  | HPort None rg n :: r =>
+      match decl with
+      | None => HPort None rg n :: inherit_header None r
+      | Some (dr, rg0) =>
+          let rg1 := match rg with Some _ => rg | None => rg0 end in
+          HPort (Some dr) rg1 n :: inherit_header (Some (dr, rg1)) r
+      end
+  | HAlias n e :: r => HAlias n e :: inherit_header decl r
+  end.
+
 Fixpoint fold_res {A S} (f : A -> S -> result S) (l : list A) (s : S) : result S :=
   match l with
   | [] => Ok s
@@ -363,13 +379,13 @@ Definition wire_decl_one (ty : vtype) (rg : option (Z * Z)) (attrs : list attr) 
   let '(d1, ck) := cou_cable name (range_l rg) (range_r rg) (Some ty) false d in
   Ok (set_cable_attrs ck (dict_of attrs) d1).
 
-(* parse_cable_declaration: the range and the attributes go to the first name only *)
+(* parse_cable_declaration: the range goes to every name, the attributes to the first name only *)
 Definition wire_decl (ty : vtype) (rg : option (Z * Z)) (attrs : list attr) (names : list str) (d : edef) : result edef :=
   match names with
   | [] => Err EAssert
   | n :: rest =>
       let* d1 := wire_decl_one ty rg attrs n d in
-      fold_res (wire_decl_one ty None []) rest d1
+      fold_res (wire_decl_one ty rg []) rest d1
   end.
 
 (* ---------- assign ---------- *)
@@ -491,9 +507,9 @@ Definition module_decl (m : vmodule) (s : estate) : result estate :=
       let s3 := if vm_cell m then s2
                 else set_acount (match st_tops s2 with None => set_elect s2 (Some [cur]) (st_ps s2) | Some _ => s2 end) O in
       let s4 := upd_def cur (fun d => set_meta d (ed_lib d) (ed_prim d) (dict_add_new (ed_params d) (dict_of (vm_params m))) (ed_attrs d)) s3 in
-      let* s5 := lift cur (fold_res header_entry (vm_header m)) s4 in
+      let* s5 := lift cur (fold_res header_entry (inherit_header None (vm_header m))) s4 in
       let* s6 := if vm_cell m
-                 then match vm_body m with [] => Err EAssert | b => fold_res (cell_item cur) b s5 end
+                 then fold_res (cell_item cur) (vm_body m) s5
                  else fold_res (body_item cur) (vm_body m) s5 in
       Ok (match vm_attrs m with
           | [] => s6
@@ -620,16 +636,31 @@ Definition abs_def (s : estate) (d : edef) : nv_def :=
      nd_nets := flat_map (fun kc => cable_nets s d (fst kc) (snd kc)) (number (ed_cables d));
      nd_assigns := def_assigns d |}.
 
-Definition final_top (s : estate) : result (option str) :=
+(* the candidate that parse_module / parse_instantiation arrived at *)
+Definition parsed_top (s : estate) : result (option str) :=
   match st_tops s with
   | None => Ok None
   | Some [] => Ok None
   | Some (t :: r) => if forallb (Nat.eqb t) r then Ok (Some (ed_name (get_def t s))) else Err (EUnsupported UTopChoice)
   end.
 
-Definition abs_state (s : estate) : result nv :=
-  let* t := final_top s in
+(* elect_top: the definitions of library work - those of the modules of the document outside `celldefine, since a
+   run that comes back has added each of them to work once - none of whose references has another module as parent;
+   st_ps holds (instantiated, instantiating) for every instance created *)
+Definition root_defs (doc : vdoc) (s : estate) : list nat :=
+  filter (fun k => existsb (fun m => negb (vm_cell m) && str_eqb (vm_name m) (ed_name (get_def k s))) doc
+                   && negb (existsb (fun p : nat * nat => Nat.eqb (fst p) k && negb (Nat.eqb (snd p) k)) (st_ps s)))
+         (seq 0 (length (st_defs s))).
+
+Definition final_top (doc : vdoc) (s : estate) : result (option str) :=
+  match root_defs doc s with
+  | [k] => Ok (Some (ed_name (get_def k s)))
+  | _ => parsed_top s
+  end.
+
+Definition abs_state (doc : vdoc) (s : estate) : result nv :=
+  let* t := final_top doc s in
   Ok {| nv_top := t; nv_defs := map (abs_def s) (st_defs s) |}.
 
 (* VerilogParser.parse_verilog on a document *)
-Definition elab (doc : vdoc) : result nv := let* s := run doc in abs_state s.
+Definition elab (doc : vdoc) : result nv := let* s := run doc in abs_state doc s.
